@@ -2025,6 +2025,10 @@ def gen25(rng, tier):
             opened[n][3] += 1
         elif x < 0.72:
             rec = str(rng.randint(1, 12))
+            if rng.random() < 0.15:
+                # a record number with a fraction is rounded like any integer argument (never exactly .5 here)
+                k = rng.randint(0, 12)
+                rec = '%d.%s' % (k, rng.choice(['3', '7', '51', '49', '9']))
         elif x < 0.89:
             rec = str(rng.choice([rng.randint(13, 60), rng.randint(61, 400), rng.randint(100, 2000)]))
         else:
